@@ -65,9 +65,12 @@ async def extract_tar_stream(
                         dst, posixpath.relpath(member.path, posixpath.basename(src))
                     )
                 )
+                size = 0
                 with open(path, "wb") as outputfile:
                     while content := await inputfile.read(transferBufferSize):
-                        outputfile.write(content)
+                        size += outputfile.write(content)
+                if size != tarinfo.size:
+                    raise tarfile.ReadError("unexpected end of data")
                 os.chmod(path, tarinfo.mode)
 
         # Otherwise, if copying a directory, modify the member path to
